@@ -250,6 +250,19 @@ def run_generated(desc, acc):
                 if lab3:
                     acc.add("third_party_shapes", lab3)
                     cross_check(acc, tp, dict(ident, third_party=lab3), "third-party")
+            if f_replace == "default" and rng.random() < 0.3:
+                tp = os.path.join(tmpdir, "third_party_fbc1.xml")
+                try:
+                    lab3 = third_party_fbc1(path, tp, rng)
+                except Exception as e:
+                    lab3 = None
+                    acc.harness_error("third-party fbc1 variant", e)
+                if lab3 and not _libsbml_errors(tp):
+                    acc.add("third_party_shapes", lab3)
+                    acc.count("third_party_fbc1_documents")
+                    cross_check(acc, tp, dict(ident, third_party=lab3), "third-party")
+                elif lab3:
+                    acc.count("third_party_rewrites_rejected_by_libsbml_skipped")  # my rewrite, not a valid third-party file
             # (b) equivalence
             b = ioequiv.describe(m1)
             d = ioequiv.diff(a, b, digits=15, ignore=("reactions.subsystem",))
@@ -331,6 +344,9 @@ def independent_read(path):
         if model.find(".//" + k + "listOfObjectives") is not None or any(k + "lowerFluxBound" in r.attrib for r in model.iter(ns_core + "reaction")):
             fbc_ns = k
     if fbc_ns is None:
+        v1 = "{http://www.sbml.org/sbml/level3/version1/fbc/version1}"
+        if model.find(v1 + "listOfFluxBounds") is not None or model.find(v1 + "listOfObjectives") is not None:
+            return _independent_read_fbc1(model, ns_core, v1)
         return _independent_read_legacy(model, ns_core)
     params = {}
     for p in model.iter(ns_core + "parameter"):
@@ -360,6 +376,120 @@ def independent_read(path):
                     coefs[fo.attrib[fbc_ns + "reaction"]] = float(fo.attrib[fbc_ns + "coefficient"])
                 obj = {"type": o.attrib.get(fbc_ns + "type"), "coefs": {k: v for k, v in coefs.items() if v != 0}}
     return {"reactions": rx, "objective": obj}
+
+
+def _stoich(r, ns_core):
+    st = {}
+    for side, sgn in (("listOfReactants", -1), ("listOfProducts", 1)):
+        lst = r.find(ns_core + side)
+        if lst is None:
+            continue
+        for sr in lst.findall(ns_core + "speciesReference"):
+            st[sr.attrib["species"]] = st.get(sr.attrib["species"], 0.0) + sgn * float(sr.attrib.get("stoichiometry", "1"))
+    return {k: v for k, v in st.items() if v != 0}
+
+
+def _independent_read_fbc1(model, ns_core, v1):
+    """fbc version 1: bounds are a model-level list of (reaction, operation, value)."""
+    def num(v):
+        return float({"INF": "inf", "-INF": "-inf"}.get(v, v))
+
+    rx = {r.attrib["id"]: {"stoich": _stoich(r, ns_core), "lb": None, "ub": None} for r in model.iter(ns_core + "reaction")}
+    lfb = model.find(v1 + "listOfFluxBounds")
+    for fb in lfb.findall(v1 + "fluxBound") if lfb is not None else []:
+        rid, op, val = fb.attrib.get(v1 + "reaction"), fb.attrib.get(v1 + "operation"), num(fb.attrib.get(v1 + "value"))
+        if rid not in rx:
+            continue
+        if op in ("greaterEqual", "equal"):
+            rx[rid]["lb"] = val
+        if op in ("lessEqual", "equal"):
+            rx[rid]["ub"] = val
+    obj = None
+    lo = model.find(v1 + "listOfObjectives")
+    if lo is not None:
+        active = lo.attrib.get(v1 + "activeObjective")
+        for o in lo.findall(v1 + "objective"):
+            if o.attrib.get(v1 + "id") == active:
+                coefs = {fo.attrib[v1 + "reaction"]: float(fo.attrib[v1 + "coefficient"]) for fo in o.iter(v1 + "fluxObjective")}
+                obj = {"type": o.attrib.get(v1 + "type"), "coefs": {k: v for k, v in coefs.items() if v != 0}}
+    return {"reactions": rx, "objective": obj, "fbc1": True}
+
+
+def _libsbml_errors(path):
+    """Errors (not warnings) of libsbml's own consistency check: the gate for calling a rewritten document 'valid'."""
+    import libsbml
+
+    doc = libsbml.readSBMLFromFile(path)
+    doc.setConsistencyChecks(libsbml.LIBSBML_CAT_UNITS_CONSISTENCY, False)
+    doc.setConsistencyChecks(libsbml.LIBSBML_CAT_MODELING_PRACTICE, False)
+    doc.checkConsistency()
+    return [doc.getError(i).getShortMessage() for i in range(doc.getNumErrors()) if doc.getError(i).getSeverity() >= libsbml.LIBSBML_SEV_ERROR]
+
+
+def third_party_fbc1(path, out, rng):
+    """Rewrite a valid fbc-v2 document written by cobrapy as an fbc *version 1* document (bounds as a
+    model-level listOfFluxBounds - a fixed flux written either as one 'equal' or as two entries -, no gene
+    products): the shape older tools write and cobrapy converts on reading."""
+    v2 = "{http://www.sbml.org/sbml/level3/version1/fbc/version2}"
+    v1 = "{http://www.sbml.org/sbml/level3/version1/fbc/version1}"
+    root = ET.fromstring(open(path, "rb").read())
+    ns = root.tag.split("}")[0] + "}"
+    model = root.find(ns + "model")
+    params = {}
+    for p_ in model.iter(ns + "parameter"):
+        if "value" in p_.attrib:
+            params[p_.attrib["id"]] = p_.attrib["value"]
+    bounds = []
+    for r in model.iter(ns + "reaction"):
+        lo_, hi_ = r.attrib.pop(v2 + "lowerFluxBound", None), r.attrib.pop(v2 + "upperFluxBound", None)
+        if lo_ not in params or hi_ not in params:
+            return None
+        bounds.append((r.attrib["id"], params[lo_], params[hi_]))
+        for gpa in r.findall(v2 + "geneProductAssociation"):
+            r.remove(gpa)
+    gone = set()
+    for lst in model.findall(v2 + "listOfGeneProducts"):
+        gone.update(gp.attrib.get(v2 + "id") for gp in lst)
+        model.remove(lst)
+    gns = "{http://www.sbml.org/sbml/level3/version1/groups/version1}"
+    for grp in list(model.iter(gns + "group")):  # members that named a gene product would dangle
+        for lom in grp.findall(gns + "listOfMembers"):
+            for mem in [x for x in lom if x.attrib.get(gns + "idRef") in gone]:
+                lom.remove(mem)
+            if len(lom) == 0:  # "listOfMembers cannot be empty"
+                grp.remove(lom)
+    model.attrib.pop(v2 + "strict", None)
+    lfb = ET.Element(v1 + "listOfFluxBounds")
+    shapes = set()
+    for rid, lo_, hi_ in bounds:
+        if lo_ == hi_ and rng.random() < 0.5:
+            ET.SubElement(lfb, v1 + "fluxBound", {v1 + "reaction": rid, v1 + "operation": "equal", v1 + "value": lo_})
+            shapes.add("equal")
+        else:
+            pair = [("greaterEqual", lo_), ("lessEqual", hi_)]
+            if rng.random() < 0.3:
+                pair.reverse()
+            for op, val in pair:
+                ET.SubElement(lfb, v1 + "fluxBound", {v1 + "reaction": rid, v1 + "operation": op, v1 + "value": val})
+    lo = model.find(v2 + "listOfObjectives")
+    idx = list(model).index(lo) if lo is not None else len(list(model))
+    model.insert(idx, lfb)
+
+    def retag(el):
+        if el.tag.startswith(v2):
+            el.tag = v1 + el.tag[len(v2):]
+        for k in [k for k in el.attrib if k.startswith(v2)]:
+            el.attrib[v1 + k[len(v2):]] = el.attrib.pop(k)
+        for ch in el:
+            retag(ch)
+
+    retag(root)
+    ET.register_namespace("", ns.strip("{}"))
+    ET.register_namespace("fbc", v1.strip("{}"))
+    ET.register_namespace("groups", "http://www.sbml.org/sbml/level3/version1/groups/version1")
+    with open(out, "wb") as f:
+        f.write(ET.tostring(root, xml_declaration=True, encoding="UTF-8"))
+    return "fbc-v1" + ("+equal" if shapes else "")
 
 
 def _independent_read_legacy(model, ns_core):
